@@ -381,6 +381,54 @@ func prefixPlusSerialize(c *an.Ctx, fn *ssa.Function, typ string) {
 			}
 		}
 	}
+	if !ok {
+		// written directly: the events after the prefix are those of Serialize without the trailing signature,
+		// at the same relative offsets
+		var ser *ssa.Function
+		for _, pkg := range []string{"glow", "server"} {
+			if m := p.Method(pkg, typ, "Serialize"); m != nil {
+				ser = m
+			}
+		}
+		if ser != nil {
+			strip := func(evs []an.CodecEvent, dropPrefix bool, dropSig bool) []string {
+				var out []string
+				base := -1
+				for _, e := range evs {
+					if e.Op != "W" {
+						continue
+					}
+					if dropPrefix && e.Field == "prefix" {
+						continue
+					}
+					if dropSig && (e.Field == "Signature" || e.Field == "GCAAuthorization") {
+						continue
+					}
+					off := ""
+					if strings.HasPrefix(e.Off, "#") {
+						v := 0
+						fmt.Sscan(e.Off[1:], &v)
+						if base < 0 {
+							base = v
+						}
+						off = fmt.Sprint(v - base)
+					} else {
+						off = e.Off
+					}
+					out = append(out, e.Sig()+"@"+off)
+				}
+				return out
+			}
+			a := strip(normaliseEvents(p.CodecEvents(fn)), true, false)
+			b := strip(normaliseEvents(p.CodecEvents(ser)), false, true)
+			if len(a) > 0 && strings.Join(a, " ") == strings.Join(b, " ") {
+				ok = true
+				desc = "direct writes " + strings.Join(a, " ")
+			} else {
+				desc = "direct writes [" + strings.Join(a, " ") + "] vs Serialize without signature [" + strings.Join(b, " ") + "]"
+			}
+		}
+	}
 	c.Check(ok, "CODEC-2", fn, fn.Pos(), an.KeyOf(fn, "body"), typ+".SigningBytes = prefix | Serialize() without its trailing 64-byte signature", "body "+desc)
 }
 
